@@ -212,8 +212,11 @@ def compare(prog: M.Program, cfg, lay: E.Layout, data: dict[str, Any]) -> dict[s
         if got != exp:
             res["verdict"] = "mismatch"
     elif exp[0] == "err":
-        if got[0] != "err":
+        # the documentation names the error class for these cases
+        if got[0] != "err" or got[1] != exp[1]:
             res["verdict"] = "mismatch"
+        else:
+            res["verdict"] = "agree-error"
     return res
 
 
@@ -233,6 +236,9 @@ def run_case(ctx: Ctx, seed: Any, j: int, tier: str, profile: Profile | None = N
                 ctx.seen("configs", cfg)
                 if res["actual"][0] == "exc":
                     ctx.count("non_liquid_error_escapes_c02")
+                if res["verdict"] == "agree-error":
+                    ctx.count("reference_error_comparisons")
+                    ctx.seen("expected_error_classes", res["expected"][1])
                 if res["verdict"] == "agree":
                     ctx.count("reference_comparisons")
                     for f in feats:
